@@ -46,6 +46,8 @@ def to_value(v, kind, nd):
         shape, data = v.get("shape"), v.get("data")
         if data is None:
             return np.zeros(shape, dtype=DT[kind])
+        if shape is not None and (len(shape) == nd) and int(np.prod(shape)) == 0:
+            return np.zeros(shape, dtype=DT[kind])
         v = data
 
     def rec(x):
